@@ -11,7 +11,7 @@ import sys
 import numpy as np
 from scipy import sparse
 
-GETTERS = ["array", "volumes", "volumes_approx", "hulls", "polytope_nodes", "adjacency", "borders", "distances"]
+GETTERS = ["array", "volumes", "volumes_approx", "hulls", "hulls_plain", "polytope_nodes", "adjacency", "borders", "distances"]
 DIM = {"ico": 3, "cube3D": 3, "randomS": 3, "zero3D": 3, "cube4D": 4, "randomQ": 4, "fulldiv": 4, "zero4D": 4}
 
 
@@ -43,6 +43,9 @@ def call_getter(g, what):
         return g.get_spherical_voronoi().get_voronoi_volumes(approx=True)
     if what == "hulls":                 # volumes of the convex hulls behind the estimated cell volumes (N >= 4)
         return np.array([h.volume for h in g.get_convex_hulls()])
+    if what == "hulls_plain":           # the same hulls without the helper points (documented flag), on the double-cover diagram in 4D
+        sv = g.get_spherical_voronoi()
+        return np.array([h.volume for h in getattr(sv, "full_voronoi", sv).get_convex_hulls(including_additional=False)])
     if what == "polytope_nodes":        # the polytope a polytope grid was cut from, as the grid object exposes it
         return np.zeros(0) if g.polytope is None else np.asarray(g.polytope.get_nodes(projection=True))
     if what == "adjacency":
